@@ -125,10 +125,48 @@ fn graph_mode(raw: &[Value], trace: &Path, scratch: &Path) -> Summary {
         }
         (events, bad)
     });
+    // random larger DAGs (6..12 nodes), edges only from higher to lower index so that they are acyclic
+    let n_random: usize = std::env::var("VERIF_RANDOM_DAGS").ok().and_then(|s| s.parse().ok()).unwrap_or(60);
+    let randoms: Vec<usize> = (0..n_random).collect();
+    let random_results = par_map(&randoms, threads(), |_, i| {
+        let mut r = fastrand::Rng::with_seed(seed().wrapping_mul(104729).wrapping_add(*i as u64));
+        let n = r.usize(6..=12);
+        let mut order: Vec<usize> = (0..n).collect();
+        r.shuffle(&mut order);
+        let name = |k: usize| format!("m{k:02}");
+        let mut deps: BTreeMap<String, Vec<String>> = BTreeMap::new();
+        for a in 0..n {
+            let mut d = vec![];
+            for b in 0..a { if r.u32(..100) < 25 { d.push(name(order[b])); } }
+            deps.insert(name(order[a]), d);
+        }
+        let tmp = tempfile::tempdir_in(scratch).unwrap();
+        write_workspace(tmp.path(), &deps, None);
+        let mut events = vec![];
+        let mut bad: Vec<Mismatch> = vec![];
+        match build_libcnb_buildpacks_dependency_graph(tmp.path()) {
+            Err(e) => bad.push(Mismatch { signature: "graph construction failed".into(), detail: format!("{e}"), case: json!({"deps": deps}) }),
+            Ok(graph) => {
+                let nodes: Vec<String> = deps.keys().cloned().collect();
+                for _ in 0..6 {
+                    let mut sel = nodes.clone();
+                    r.shuffle(&mut sel);
+                    sel.truncate(r.usize(1..=nodes.len()));
+                    let roots: Vec<_> = sel.iter().map(|n| graph.node_weights().find(|w| w.buildpack_id.to_string() == bp_id(n)).expect("root")).collect();
+                    match get_dependencies(&graph, &roots) {
+                        Ok(order) => events.push(json!({"kind": "order", "deps": deps, "roots": sel, "order": order.iter().map(|n| n.buildpack_id.to_string().trim_start_matches("verif/").to_string()).collect::<Vec<_>>(), "ok": true})),
+                        Err(e) => events.push(json!({"kind": "order", "deps": deps, "roots": sel, "order": [], "ok": false, "error": format!("{e}")})),
+                    }
+                }
+            }
+        }
+        (events, bad)
+    });
     let mut f = std::io::BufWriter::new(fs::File::create(trace).unwrap());
     let mut s = Summary::default();
     let mut distinct = BTreeSet::new();
-    for (events, bad) in results {
+    s.extra.insert("random_dags".into(), json!(n_random));
+    for (events, bad) in results.into_iter().chain(random_results) {
         for e in &events {
             writeln!(f, "{e}").unwrap();
             if e["kind"] == "order" && e["order"].as_array().is_some_and(|a| a.len() >= 2) { distinct.insert(format!("{}{}", e["deps"], e["roots"])); }
